@@ -57,6 +57,13 @@ structure Book where
 deriving Repr
 
 def Book.exec (b : Book) (r : Nat) : Option BExec := b.execs.find? (·.rid == r)
+
+/-- An id was accepted again while an earlier request with it had been cancelled, expired, abandoned or aborted
+(not completed): the first request's late guard cancellation then erases the second one's table entry.  Re-use of
+an id after anything but completion is outside the properties' quantifiers (C08: "id reused after completion"). -/
+def Book.reuseTainted (b : Book) : Bool :=
+  b.execs.any fun e => b.execs.any fun e' =>
+    e'.id == e.id && e'.rid < e.rid && (e'.cancelRead || e'.abandoned || e'.hDropped || e'.expiredSeen)
 def Book.updExec (b : Book) (r : Nat) (f : BExec → BExec) : Book :=
   { b with execs := b.execs.map (fun e => if e.rid == r then f e else e) }
 def Book.tracked (b : Book) (id : Nat) : Bool := b.table.any (·.1 == id)
@@ -224,7 +231,10 @@ def checkC06 (b : Book) (_ : Unit) : SEv → Unit × Option String
   | .obs (.handler r .polled t) =>
       match b.exec r, b.lastIdlePoll with
       | some e, some tp =>
-          if e.expiredSeen then ((), some s!"handler of request {r} still running at {t}: the channel was polled (last at {tp}) past its deadline {e.deadline}")
+          -- (an id re-used while an earlier request with it was cancelled or abandoned — not completed — is outside
+          -- the quantifier: the first request's late guard cancellation erases the second one's entry, see C04)
+          let reusedAfterAbort := b.execs.any fun e' => e'.id == e.id && e'.rid < e.rid && (e'.cancelRead || e'.abandoned || e'.hDropped)
+          if e.expiredSeen && !reusedAfterAbort then ((), some s!"handler of request {r} still running at {t}: the channel was polled (last at {tp}) past its deadline {e.deadline}")
           else ((), none)
       | _, _ => ((), none)
   | .obs (.tSend _ (.response id res) _) =>
@@ -330,7 +340,7 @@ def checkC11 (b : Book) (_ : Unit) : SEv → Unit × Option String
         ((), some s!"{inflight} requests reported in flight, only {b.table.length} yielded requests can still be tracked")
       else if b.stalled && !b.failed && inflight > b.sweep.table.length then
         ((), some s!"limiter at its limit and sink not ready: {inflight} reported in flight, only {b.sweep.table.length} yielded request(s) unfinished (cancellations / expirations are not processed until the sink is ready)")
-      else if b.idleNow && inflight != b.table.length then
+      else if b.idleNow && inflight != b.table.length && !b.reuseTainted then
         ((), some s!"channel idle: {inflight} reported in flight, {b.table.length} yielded requests unanswered, uncancelled, unexpired and not abandoned")
       else ((), none)
   | _ => ((), none)
